@@ -13,7 +13,11 @@ class Box(GymBox):
         elif type(x) is float:
             x = np.array([x], dtype=float)
         elif not isinstance(x, np.ndarray):
+            original = x
             x = np.asarray(x, dtype=self.dtype)
+            if self.dtype.kind in 'iu' and not np.array_equal(x, np.asarray(original)):
+                # The conversion to an integer type changed a value (e.g. 1.9 -> 1).
+                return False
 
         return bool(
             np.can_cast(x.dtype, self.dtype) and
